@@ -516,4 +516,40 @@ theorem run_refines (ne np : Nat) (d : Det) (l : List SOp)
       refine ⟨ht', new1 ++ new2, by rw [hn2, hn1, List.append_assoc], fun sc => ?_⟩
       rw [hr1 l new2 sc, hr2 sc]
 
+/-- the outcomes recorded by the measuring operations on register `r`, in execution order (`outs`: one outcome per measuring
+    operation of `l`, in execution order) -/
+def outsOn (ne np : Nat) : List SOp → List Bool → Reg → List Bool
+  | [], _, _ => []
+  | a :: l, outs, r =>
+    match (decode ne np a).bind Dec.mreg with
+    | some r' => (if r = r' then [outs.headD false] else []) ++ outsOn ne np l outs.tail r
+    | none => outsOn ne np l outs r
+
+/-- the outcome streams built by `feed` from empty streams are, register by register, the outcomes recorded on that register -/
+theorem feed_apply (ne np : Nat) (l : List SOp) (outs : List Bool) (r : Reg) :
+    feed ne np l outs (fun _ => []) r = outsOn ne np l outs r := by
+  induction l generalizing outs with
+  | nil => rfl
+  | cons a l ih =>
+    unfold feed outsOn
+    cases hm : (decode ne np a).bind Dec.mreg with
+    | none => exact ih outs
+    | some r' =>
+      simp only [pushOut]
+      by_cases h : r = r'
+      · rw [if_pos h, if_pos h, ih]; rfl
+      · rw [if_neg h, if_neg h, ih]; rfl
+
+/-- "every measuring operation recorded the same outcome in both runs": the streams agree iff on every register the recorded
+    outcomes agree -/
+theorem feed_eq_iff (ne np ne' np' : Nat) (l l' : List SOp) (outs outs' : List Bool) :
+    feed ne np l outs (fun _ => []) = feed ne' np' l' outs' (fun _ => []) ↔
+      ∀ r, outsOn ne np l outs r = outsOn ne' np' l' outs' r := by
+  constructor
+  · intro h r
+    rw [← feed_apply, ← feed_apply, h]
+  · intro h
+    funext r
+    rw [feed_apply, feed_apply, h]
+
 end Graphiq.Commute
